@@ -585,6 +585,50 @@ Proof.
   destruct (Nat.eqb nrepl 0) eqn:E; [discriminate|]. apply Nat.eqb_neq in E. split; [exact E|apply names_subset_incl, H].
 Qed.
 
+(* a validated command: every pod bound to a candidate at validation time (the re-simulation covers them: it is run over
+   the candidates rebuilt from the current cluster state) has a home, and the number of new NodeClaims is the command's *)
+Definition covers (expect : list Z) (s : sim) : Prop :=
+  forall id, List.In id expect -> exists p, List.In p (s_pods s) /\ pp_id p = id /\ pp_origin p = OnCandidate.
+
+Lemma validated_command_pods_have_home_l present nominated budget_ok nrepl repl s expect :
+  validate present nominated budget_ok nrepl repl s = true -> wf_sim s -> covers expect s ->
+  present = true /\ nominated = false /\
+  (length (s_new s) <= 1)%nat /\ (nrepl = 0%nat <-> s_new s = []) /\
+  (forall nc, s_new s = [nc] -> incl repl (map it_name (nc_opts nc))) /\
+  forall id, List.In id expect ->
+    exists p, List.In p (s_pods s) /\ pp_id p = id /\ good_place (length (s_new s)) (pp_where p) = true.
+Proof.
+  unfold validate. rewrite !andb_true_iff, negb_true_iff. intros [[[Hp Hn] _] Hv] Hwf Hcov.
+  apply validate_command_l in Hv as [Hall Hs].
+  split; [exact Hp|]. split; [exact Hn|].
+  assert (Hlen : (length (s_new s) <= 1)%nat) by (destruct (s_new s) as [|nc [|]]; simpl; try lia; destruct Hs).
+  split; [exact Hlen|]. split.
+  { destruct (s_new s) as [|nc [|]]; [tauto| |destruct Hs]. destruct Hs as [Hs _]. split; [tauto|discriminate]. }
+  split.
+  { intros nc E. rewrite E in Hs. tauto. }
+  intros id Hid. destruct (Hcov id Hid) as (p & Hin & Hpid & Ho). exists p. split; [exact Hin|]. split; [exact Hpid|].
+  unfold all_scheduled in Hall. rewrite forallb_forall in Hall. specialize (Hall p Hin).
+  unfold provisionable, errored in Hall. rewrite Ho, orb_false_r in Hall.
+  destruct (pp_where p) as [|n [|]|i] eqn:Ew; simpl in *; try discriminate; [reflexivity|].
+  specialize (Hwf p i Hin Ew). destruct i; [|lia]. apply Nat.eqb_eq. lia.
+Qed.
+
+Lemma map_candidates_current proposed current c :
+  List.In c (map_candidates proposed current) -> List.In c current /\ mem (c_name c) proposed = true.
+Proof. unfold map_candidates. rewrite filter_In. tauto. Qed.
+
+Lemma validate_empty_l proposed current names :
+  validate_empty proposed current = Some names ->
+  forall n, List.In n names -> exists c nom, List.In (c, nom) current /\ c_name c = n /\ mem n proposed = true /\
+     nom = false /\ forall p, List.In p (c_pods c) -> p <= 0.
+Proof.
+  unfold validate_empty.
+  destruct (filter _ current) as [|x l] eqn:E; [discriminate|]. intros [= <-] n Hn.
+  rewrite <- E in Hn. apply in_map_iff in Hn as ([c nom] & <- & Hin). apply filter_In in Hin as [Hin Hb].
+  simpl in Hb. rewrite !andb_true_iff, negb_true_iff in Hb. destruct Hb as [[Hm He] Hno].
+  exists c, nom. repeat split; try assumption. apply is_empty_iff, He.
+Qed.
+
 (* ------------------------------------------------------------------ the oracles reflect the specification *)
 Lemma cheaper_b_iff r cp it : cheaper_b r cp it = true <-> cheaper r cp it.
 Proof.
